@@ -45,8 +45,8 @@ CLAIMS = {
          "Static necessary-condition check of the decoder's compiled programs: on every Go-level path of every compile* function each emitted branch is pinned or handed on, the state stack is balanced on the emitted control flow, nesting is tagged, and every opcode has its handler; sonic's copy of encoding/json's field resolver (typeFields and helpers) takes every branch decision and call of the GOROOT original in the same order. Decoded values, the comparator closures of the resolver and natives are NOT decided.",
          "Trusts the emitter-DSL model (add/chr/int/rtt/pin/rel/tag) and the branch-op table, which is re-derived from the x86 handlers on every run.",
          "DESIGN.md §3.2 I0-I3, §4 C01"),
- "C05": ("forward dataflow over emitted x86 templates (bytes proven available at the input cursor), go/cfg dataflow for raw-pointer reads, constant relations for the padded copy",
-         "Go/generator side only: every load of the JIT decoder templates through (IP)(IC) is covered by a bound check since IC last moved; every raw *(*byte) read in ast/decode.go and utils/skip.go is dominated by p < end; optdec parses a private copy with >= 64 padding bytes. Reads inside the native routines are NOT decided (byte arrays).",
+ "C05": ("forward dataflow over emitted x86 templates (bytes proven available at the input cursor), linear-form abstract interpretation of cursor/offset arithmetic in the templates, go/cfg dataflow for raw-pointer reads, constant relations for the padded copy",
+         "Go/generator side only: every load of the JIT decoder templates through (IP)(IC) is covered by a bound check since IC last moved; text handed on as (IP+s, length) has length IC-s+c ending at or before the cursor and never IC+s; every raw *(*byte) read in ast/decode.go and utils/skip.go is dominated by p < end; optdec parses a private copy with >= 64 padding bytes. Reads inside the native routines are NOT decided (byte arrays).",
          "A handler's first access may rely on IC < IL established by the preceding lspace opcode. The natives' own SIMD loads and tails are out of reach of this technique in this sandbox.",
          "DESIGN.md §4 C05"),
  "C06": ("pool typestate with alias tokens, path-sensitive over go/cfg; copy-before-retain instances; output-space budget dataflow over the emitted x86 encoder templates; input-pointer taint dataflow over the emitted x86 decoder templates (CopyString)",
